@@ -23,6 +23,22 @@ CHECKS = {
          "the real report loop goroutine) with NaN-payload / +-0 / subnormal / infinity bit patterns; TLC judges every recorded trace."),
    note=CORE_NOTE + " Passes over a live gauge are assumed not to overlap each other (see DESIGN.md section 9 for the recorded observation).",
    design_ref="DESIGN.md section 6 C02"),
+ "C04": dict(
+   technique="TLA+ specs ScopeNaming.tla / KeyGen.tla checked by TLC; derivation programs executed on real scopes validated by TLC against ScopeNamingTrace.tla",
+   text=("TLC checks the derivation algebra (right-biased overlay, idempotence, regrouping, prefix/separator joining, empty prefix) over all roots x maps x names of a "
+         "small domain and shows each weakening is caught. All derivation programs up to depth 2 (thorough 3) are executed on real roots - plain reporter, cached reporter, "
+         "test scope; ASCII / multi-byte / invalid UTF-8 / long strings; with and without sanitizer - and TLC recomputes name and tags of every metric that reached the "
+         "reporter from the logged derivation events; caller maps are compared before/after and mutated afterwards."),
+   note=("Trusted: the abstract-string tables of the harness (order preserving, uniquely decodable), the recording reporters, TLC. With a sanitizer the per-character table "
+         "is derived from the options (C06 decides the sanitizer)."), design_ref="DESIGN.md section 6 C04"),
+ "C05": dict(
+   technique="TLA+ specs KeyGen.tla (key writer transcribed literally) / ScopeNaming.tla checked by TLC; pairs of derivations on real scopes and the public key function validated by TLC",
+   text=("TLC checks order independence, rightmost precedence, agreement with the merged map and injectivity on delimiter-free strings for all (prefix, map, map) of a small "
+         "domain, and exhibits the collision witness once delimiter characters are in the alphabet (known finding). All pairs of derivation programs are executed on one real "
+         "root per shard count (1, 2, 7, 64) and TLC judges pointer identity of scopes and counters against identity in the model; the public key function is compared "
+         "character by character with the transcribed writer."),
+   note=("Trusted: harness tables, TLC. Collisions caused only by unescaped '+', ',', '=' inside strings are the recorded known finding C05-key-delimiters; every other merge of "
+         "different identities is a violation."), design_ref="DESIGN.md section 6 C05"),
  "C07": dict(
    technique="TLA+ model TallyCore.tla checked by TLC; observable traces of the real registry code under a controlled scheduler validated by TLC against TallyObs.tla",
    text=("TLC checks, on the model of the registry (RUnlock/Lock/delete/RLock hand-over, closed-flag read, Subscope with report-on-reacquire), that everything promised "
